@@ -35,6 +35,33 @@ def P():
 def hexchars(s):
     return '.'.join('%x' % ord(c) for c in s) if s else '-'
 
+# --- every call into the code under test is guarded by a timer: a modified regex may backtrack exponentially, and the
+#     regex engine checks for signals while matching
+import signal
+
+class Timeout(BaseException):
+    pass
+
+def _on_alarm(signum, frame):
+    raise Timeout()
+
+signal.signal(signal.SIGALRM, _on_alarm)
+CALL_LIMIT = 3.0
+TIMED_OUT = []          # inputs on which the code under test exceeded CALL_LIMIT
+
+def guarded(fn, s, *args):
+    """fn(s, *args) under the timer; 'err timeout' if it does not return in CALL_LIMIT seconds"""
+    if len(TIMED_OUT) >= 8:
+        return 'err timeout-skipped'      # enough concrete slow inputs: do not spend CALL_LIMIT on every further string
+    signal.setitimer(signal.ITIMER_REAL, CALL_LIMIT)
+    try:
+        return fn(s, *args)
+    except Timeout:
+        TIMED_OUT.append((getattr(fn, '__name__', '?'), s))
+        return 'err timeout'
+    finally:
+        signal.setitimer(signal.ITIMER_REAL, 0)
+
 def representable(s):
     """Lean's Char has no lone surrogates"""
     return not any(0xD800 <= ord(c) <= 0xDFFF for c in s)
@@ -202,7 +229,7 @@ def run_parse_stream(chk, fam, prefix='pybrace', impl=impl_parse):
         if not strings:
             continue
         lines = [f'{prefix} parse ' + hexchars(s) for s in strings]
-        outs = [impl(s) for s in strings]
+        outs = [guarded(impl, s) for s in strings]
         dis, _model = chk.stream(f'{prefix}-' + name, lines, outs)
         res[name] = [strings[i] for i in dis]
         chk.note_cases({(prefix, s) for s, o in zip(strings, outs) if o.startswith('ok ') and ('F:' in o)})
@@ -217,7 +244,7 @@ def run_cfg_stream(chk, strings):
             continue
         for ssize, limit in ((3, 0), (0, 0), (2 ** 31 - 1, 4300), (5, 640)):
             lines.append(f'pybrace parse-cfg {ssize} {limit} ' + hexchars(s))
-            outs.append(impl_parse_cfg(s, ssize, limit))
+            outs.append(guarded(impl_parse_cfg, s, ssize, limit))
             used.append(s)
     dis, _ = chk.stream('pybrace-cfg', lines, outs)
     return [used[i] for i in dis]
@@ -225,7 +252,7 @@ def run_cfg_stream(chk, strings):
 def run_spec_stream(chk, specs):
     specs = [s for s in specs if representable(s)]
     lines = ['pybrace spec ' + hexchars(s) for s in specs]
-    outs = [impl_spec(s) for s in specs]
+    outs = [guarded(impl_spec, s) for s in specs]
     dis, _ = chk.stream('pybrace-spec', lines, outs)
     return ['{:' + specs[i] + '}' for i in dis]
 
@@ -528,15 +555,22 @@ def check_py(s, stats=None):
     def count(k):
         if stats is not None:
             stats[k] = stats.get(k, 0) + 1
+    signal.setitimer(signal.ITIMER_REAL, CALL_LIMIT)
     try:
         fmt = m.FormatString(s)
     except m.Error as exc:
         count('rejected:' + type(exc).__name__)
         return None                       # rejecting is always allowed
+    except Timeout:
+        rep.update(kind='time-timeout', observed=f'FormatString did not return within {CALL_LIMIT} s on {len(s)} characters',
+                   expected='time linear in the length of the string', key='time:pybrace:' + s[:40])
+        return rep
     except Exception as exc:
         rep.update(kind='crash', observed=f'{type(exc).__name__}: {exc}'[:200], expected="only the module's own Error classes",
                    key=f'crash:{type(exc).__name__}:{s[:80]}')
         return rep
+    finally:
+        signal.setitimer(signal.ITIMER_REAL, 0)
     if not oracle_parses(s):
         rep.update(kind='accepted-but-python-rejects', observed=oracle_parse(s), expected='string.Formatter().parse(s) succeeds',
                    key='parse:' + s[:80])
@@ -554,6 +588,17 @@ def check_py(s, stats=None):
             rep.update(kind='signature-unusable', observed=f'{type(exc).__name__}: {exc}'[:200], expected='argument_map with .types', key='signature:' + s[:80])
             return rep
         if sig is None:
+            # an index no argument tuple can be built for; above PY_SSIZE_T_MAX CPython fails whatever the arguments
+            try:
+                s.format()
+            except ValueError as exc:
+                if 'Too many decimal digits' in str(exc):
+                    rep.update(kind='accepted-but-format-fails', observed=f'{s!r}.format(...) -> ValueError: {exc} (whatever the arguments)'[:300],
+                               expected='str.format succeeds with arguments of the reported positions, names and types', args='any',
+                               key='accept:index-above-PY_SSIZE_T_MAX:' + s[:40])
+                    return rep
+            except Exception:
+                pass
             count('accepted-not-run(index)')
             return None
         pos, kw = sig
@@ -594,15 +639,22 @@ def check_perl(s, stats=None):
     rep = {'parser': 'perlbrace', 'input': _short(s), 'input_hex': hexchars(s) if len(s) < 2000 else None,
            'replay': f'import lib.strformat.perlbrace as P; P.FormatString({s!r})' if len(s) < 2000 else 'see input'}
     want = ref_perl(s)
+    signal.setitimer(signal.ITIMER_REAL, CALL_LIMIT)
     try:
         fmt = p.FormatString(s)
         got = set(fmt.arguments)
     except p.Error:
         got = None
+    except Timeout:
+        rep.update(kind='time-timeout', observed=f'FormatString did not return within {CALL_LIMIT} s on {len(s)} characters',
+                   expected='time linear in the length of the string', key='time:perlbrace:' + s[:40])
+        return rep
     except Exception as exc:
         rep.update(kind='crash', observed=f'{type(exc).__name__}: {exc}'[:200], expected="only the module's own Error class",
                    key=f'perl-crash:{type(exc).__name__}:{s[:80]}')
         return rep
+    finally:
+        signal.setitimer(signal.ITIMER_REAL, 0)
     if stats is not None:
         k = 'perl-accepted' if got is not None else 'perl-rejected'
         stats[k] = stats.get(k, 0) + 1
@@ -727,28 +779,20 @@ def regex_screen():
             hits.append({'pattern': name, 'shape': f'unreadable: {type(exc).__name__}', 'pump': ['a']})
     return hits
 
-class _Timeout(Exception):
-    pass
-
 def _timed(fn, s, limit):
     """wall time of fn(s) (own errors are fine), or None on timeout; the regex engine checks signals while matching"""
-    import signal
-    def handler(signum, frame):
-        raise _Timeout()
-    old = signal.signal(signal.SIGALRM, handler)
     signal.setitimer(signal.ITIMER_REAL, limit)
     t0 = time.perf_counter()
     try:
         try:
             fn(s)
-        except _Timeout:
+        except Timeout:
             return None
         except Exception:
             pass
         return time.perf_counter() - t0
     finally:
         signal.setitimer(signal.ITIMER_REAL, 0)
-        signal.signal(signal.SIGALRM, old)
 
 def timing_stream(chk, thorough=False):
     """n, 2n, 4n on pump strings: the time of FormatString must not grow faster than ~linearly.  TEST level."""
